@@ -418,6 +418,9 @@ type Program struct {
 	Rules   []Rule
 	Package string // non-empty: wrap in a package
 	Decls   []string
+	// Order, if set, is the textual order of the clauses: indexes < len(Facts)
+	// are facts, the others rules (index - len(Facts)).
+	Order []int
 }
 
 func (p *Program) Pred(name string) *PredInfo {
@@ -457,8 +460,21 @@ func (p *Program) Source(inlineFacts bool) string {
 		}
 		fmt.Fprintf(&sb, "Decl %s(%s)%s%s.\n", pi.Name, strings.Join(as, ", "), t, b)
 	}
-	if inlineFacts {
-		for _, f := range p.Facts {
+	if len(p.Order) == len(p.Facts)+len(p.Rules) {
+		for _, i := range p.Order {
+			if i < len(p.Facts) {
+				if inlineFacts || p.Pred(p.Facts[i].Pred) == nil || !p.Pred(p.Facts[i].Pred).EDB {
+					sb.WriteString(p.Facts[i].Src() + "\n")
+				}
+			} else {
+				sb.WriteString(p.Rules[i-len(p.Facts)].Src() + "\n")
+			}
+		}
+		return sb.String()
+	}
+	for _, f := range p.Facts {
+		// facts of derived predicates are always part of the text
+		if inlineFacts || p.Pred(f.Pred) == nil || !p.Pred(f.Pred).EDB {
 			sb.WriteString(f.Src() + "\n")
 		}
 	}
